@@ -77,7 +77,55 @@ def tags_of(beh):
         if k in ("Rebase", "CherryPick", "Amend", "MergeSquash", "Switch", "IRebase", "CherryPickMany"):
             # what happened just before: pending work? how many commits on each side?
             t.add("%s:after:%s" % (k, beh[i - 1]["a"] if i else "-"))
+    # blocks of lines a whole-tree commit adds (authors in order), and later deletions inside such a block
+    who = {}
+    curc = {}
+    committed = {}
+    block_of = {}
+    for a in beh:
+        if a["a"] == "Edit":
+            for u, w in a["c"]:
+                who.setdefault(u, "A" if a["who"] != "H" else "h")
+            old = curc.get(a["f"], None)
+            if a["kind"] == "del" and old is not None:
+                gone = [u for u, w in old if u not in [x[0] for x in a["c"]]]
+                for u in gone:
+                    if u in block_of:
+                        authors, idx, n = block_of[u]
+                        if 0 < idx < n - 1:
+                            t.add("del-inside-block:" + authors)
+                        elif n > 1:
+                            t.add("del-edge-of-block:" + authors)
+            curc[a["f"]] = a["c"]
+        elif a["a"] == "Commit" and a.get("mode") == "all":
+            for f, c in curc.items():
+                prev = {u for u, w in committed.get(f, [])}
+                run = []
+                for u, w in c + [[None, 0]]:
+                    if u is not None and u not in prev:
+                        run.append(u)
+                    else:
+                        if run:
+                            authors = "".join(who.get(x, "?") for x in run)
+                            t.add("block:" + authors)
+                            for k, x in enumerate(run):
+                                block_of[x] = (authors, k, len(run))
+                        run = []
+                committed[f] = c
     t.add("ncommits:%d" % sum(1 for a in beh if a["a"] == "Commit"))
+    for a in beh:
+        if a["a"] == "CherryPickMany":
+            t.add("pickmany:%s" % ("adjacent" if a["cs"][1] == a["cs"][0] + 1 else "skip"))
+    if any(a["a"] in ("CherryPickMany", "IRebase", "Rebase", "CherryPick") for a in beh):
+        # ordered signature of who inserted where (top / middle / bottom), one entry per edit
+        sig = []
+        for a in beh:
+            if a["a"] == "Edit" and a["kind"] == "ins":
+                c = a["c"]
+                mx = max(u for u, _ in c)
+                pos = [u for u, _ in c].index(mx)
+                sig.append(("A" if a["who"] != "H" else "h") + ("t" if pos == 0 else "b" if pos == len(c) - 1 else "m"))
+        t.add("insseq:" + "".join(sig))
     # line-level ping-pong: a line whose "mod" chain alternates AI -> human -> AI
     cur = {}
     chain = {}
